@@ -124,6 +124,8 @@ register(
 # ===========================================================================
 
 def seq_ops(rng, mg, n_lo=4, n_hi=12, p_can=0.0, p_adv=0.0, extra_events=()):
+    from .gen import SCALE
+    n_hi = min(25, int(n_hi * SCALE["v"]))
     ops = [{"op": "start"}]
     evs = list(mg.events) + list(extra_events)
     for _ in range(rng.randint(n_lo, n_hi)):
@@ -429,11 +431,16 @@ register(
     runner=O.run_c16,
     level="exploration",
     chunk=20,
+    xproc_is_violation=True,
+    selftest_scale=3,
     tiers={"quick": {"runs": 1500}, "thorough": {"runs": 100000}},
     rule=("each scenario (machines dense in parallel regions and deep/shallow history) is executed 6 times: under 4 different salts of "
           "the StateNode hash (every set-iteration order is reachable by some salt) and twice with the unpatched address hash after "
-          "perturbing the heap; the normalised traces (actions, guards, transitions, configurations, contexts) must be identical. The "
-          "check's self-test additionally re-executes scenarios in a fresh interpreter under another PYTHONHASHSEED. "
+          "perturbing the heap; the normalised traces (actions, guards, transitions, configurations, contexts) must be identical. In "
+          "addition 24 (quick) / 72 (thorough) scenarios are re-executed in a fresh interpreter under another PYTHONHASHSEED (string "
+          "and bytes hashes change, so the iteration order of every set of ids changes) and the trace digests compared: for this "
+          "property a difference is reported as its violation (rule trace-depends-on-hash-seed), its replay file re-runs both "
+          "interpreters. "
           "Non-trivial = >= 3 transitions; distinct = hash of the event/transition sequence"),
 )
 
